@@ -297,8 +297,15 @@ def check_step(P, R, tu):
                 if par is not None and par.get("k") == "BinaryOperator" and par.get("op") == "=":
                     v = strip(par["c"][0])
                     arg0 = strip(call_args(s)[0])
-                    if v is not None and arg0 is not None and v.get("k") == "DeclRefExpr" and arg0.get("k") == "DeclRefExpr" and v["d"] == arg0["d"]:
-                        okl = True
+                    if v is not None and arg0 is not None and v.get("k") == "DeclRefExpr" and arg0.get("k") == "DeclRefExpr":
+                        if v["d"] == arg0["d"]:
+                            okl = True
+                        else:
+                            # through a second variable: nxt = step(x); (leave the loop when that is no progress;) x = nxt;
+                            for y in walk(lp):
+                                if y.get("k") == "BinaryOperator" and y.get("op") == "=" and (strip(y["c"][0]) or {}).get("d") == arg0["d"] \
+                                        and (strip(y["c"][1]) or {}).get("k") == "DeclRefExpr" and strip(y["c"][1]).get("d") == v["d"] and y["i"] > par["i"]:
+                                    okl = True
             if okl:
                 R.ob(rule, "%s: loop at line %s advances its value through the increment" % (fname, lp.get("l")), True)
             else:
@@ -314,10 +321,11 @@ def check_clamped_test(P, R, tu):
     mn = tu.func("main")
     hit = False
     for lp in mn.walk():
-        if lp.get("k") != "ForStmt":
+        # the emitting loop, however it is spelt: a loop of main whose body writes a value out
+        if lp.get("k") not in ("ForStmt", "WhileStmt"):
             continue
-        cond = lp["c"][1]
-        if cond is None:
+        cond = lp["c"][1] if lp.get("k") == "ForStmt" else lp["c"][0]
+        if cond is None or not any(y.get("k") == "CallExpr" and y.get("callee") == "dt_io_write" for y in walk(lp["c"][-1])):
             continue
         for c in walk(cond):
             if c.get("k") == "CallExpr" and c.get("callee") == "__in_range_p":
@@ -354,7 +362,7 @@ LEVEL = ("Decides structural necessary conditions of termination and of the rang
          "values printed are exactly FIRST + k*INC within the bounds is decided on 44 representative runs by folding the helpers the "
          "main loop is made of (RF2-seq: direction, start, range test, step, anchoring at LAST; dates with day / week / month / year "
          "steps both ways, skip sets, times of day around midnight and with steps that miss LAST or span days), together with 13 skip "
-         "lists through set_skip / skipp; for all other inputs it rests on the structural conditions.  The three-line loop of main() "
-         "itself, argument parsing and printing are not folded.")
+         "lists through set_skip / skipp; for all other inputs it rests on the structural conditions.  The tail of main() (promotion, "
+         "direction, start, emitting loop) is folded as it stands; argument parsing and printing are replaced by stand-ins.")
 RULE = "obligation = one dominance fact, one guarded union read, one accumulation site, one range test shape, one bit table, one loop"
 ASSUME = ["dt_dtadd moves a date-time by the increment (C03/C04/C11)", "dt_dt_in_range_p is the order of C08"]
